@@ -1,6 +1,7 @@
 package props
 
 import (
+	"strings"
 	"bytes"
 	"context"
 	"errors"
@@ -53,9 +54,23 @@ type c15AgreeableErr struct{}
 func (c15AgreeableErr) Error() string        { return "an error whose Is method says yes to every target" }
 func (c15AgreeableErr) Is(target error) bool { return true }
 
+// error values of dynamic types that cannot be hashed or compared: a list of errors, a struct holding a list, and
+// one of those wrapped.  An error is something to hand back, not something to look up.
+type c15ListErr []error
+
+func (l c15ListErr) Error() string { return fmt.Sprintf("%d errors from the destination", len(l)) }
+
+type c15DetailErr struct {
+	op      string
+	details []string
+}
+
+func (e c15DetailErr) Error() string { return e.op + ": " + strings.Join(e.details, "; ") }
+
 var c15Errs = []error{
 	errInjected, io.EOF, fmt.Errorf("connection lost: %w", io.EOF), io.ErrUnexpectedEOF, io.ErrShortWrite, io.ErrClosedPipe,
 	os.ErrClosed, context.Canceled, syscall.EPIPE, syscall.EAGAIN, c15AgreeableErr{}, errors.New(""), io.ErrNoProgress,
+	c15ListErr{errInjected, io.EOF}, c15DetailErr{"write", []string{"disk full", "quota"}}, fmt.Errorf("flush: %w", c15ListErr{io.ErrShortWrite}),
 }
 
 type scriptWriter struct {
@@ -517,7 +532,8 @@ func c15Strace(c *Ctx, i int, r *gen.R) {
 	cmd := exec.Command(strace, "-f", "-qq", "-o", slog, "-P", out, "-e", "trace=write", "-e", fmt.Sprintf("inject=write:error=ENOSPC:when=%d%s", k, plus),
 		c.Exe, "-aux", "c15child", strconv.Itoa(idx), rd.name, out)
 	cmd.Env = append(os.Environ(), "GOMAXPROCS=1")
-	runErr := cmd.Run()
+	var runErr error
+	waitingForChild(func() { runErr = cmd.Run() })
 	code := 0
 	if ee, ok := runErr.(*exec.ExitError); ok {
 		code = ee.ExitCode()
